@@ -202,7 +202,7 @@ func runOpJobs(c *hx.Checker, jobs []opJob) {
 }
 
 // extremeInts: attribute / index values at the edges of the 64- and 32-bit ranges.
-var extremeInts = []int64{math.MinInt64, math.MinInt64 + 1, math.MaxInt64, math.MaxInt64 - 1, math.MinInt32, math.MinInt32 - 1, math.MaxInt32, math.MaxInt32 + 1, 1 << 32, -(1 << 32), 1<<32 + 1, 1<<63 - 1<<31}
+var extremeInts = []int64{1 << 62, 1 << 31, 1 << 61, math.MinInt64, math.MinInt64 + 1, math.MaxInt64, math.MaxInt64 - 1, math.MinInt32, math.MinInt32 - 1, math.MaxInt32, math.MaxInt32 + 1, 1 << 32, -(1 << 32), 1<<32 + 1, 1<<63 - 1<<31}
 
 func tjs(ts ...*ref.T) []*hx.TJ { return hx.ToTJs(ts) }
 
